@@ -4,7 +4,7 @@ import json, os
 from vlib import core
 
 SRC = ["/igris/sync/syslock_mutex.cpp", "/igris/osinter/wait.cpp", "/igris/osinter/wait-linux.cpp", "/igris/container/dlist.cpp"]
-CONFIGS = ["SysSyncWake.cfg", "SysSyncWakeSpur.cfg", "SysSyncRewait.cfg", "SysSyncLock.cfg", "SysSyncQueue.cfg"]
+CONFIGS = ["SysSyncWake.cfg", "SysSyncWakeSpur.cfg", "SysSyncRewait.cfg", "SysSyncLock.cfg", "SysSyncQueue.cfg", "SysSyncDeleg.cfg"]
 
 
 def programs(rng, n):
@@ -91,6 +91,12 @@ def check(ctx):
     ctx.extra["model_detects_notify_after_unlock"] = (not r.ok) and "NoTouchAfterDestroy" in (r.violation or r.out)
     if r.ok:
         raise core.InfraError("model self-test failed: the notify-after-unlock order is not rejected")
+    # second self-test: an unwait_all that reads the successor before waking must violate NoDoubleWake once delegates wake from their callbacks
+    r = ctx.tlc("SysSyncMC", "SysSyncDelegStale.cfg", workers=4, timeout=600)
+    ctx.models.pop()
+    ctx.extra["model_detects_cursor_before_wake"] = (not r.ok) and "NoDoubleWake" in (r.violation or r.out)
+    if r.ok:
+        raise core.InfraError("model self-test failed: the cursor-before-wake design is not rejected")
     # 2. real threads, recorded at the hook points, judged by the trace specification
     n = 12000 if ctx.thorough else 300
     script = []
@@ -112,7 +118,7 @@ def check(ctx):
     for b in bad: b["driver"] = "drv_sync_tsan"
     ctx.report(bad)
     ctx.assumptions += [
-        "schedules: TLC enumerates every interleaving of the closed programs of SysSyncMC.tla (2 waiters + 2 wakers, re-waiting waiter, nested lock with save/restore, 2 producers + consumer); real executions are sampled with seeded random yields at every hook point",
+        "schedules: TLC enumerates every interleaving of the closed programs of SysSyncMC.tla (2 waiters + 2 wakers, re-waiting waiter, nested lock with save/restore, 2 producers + consumer, delegate waiters that wake from inside their callbacks); real executions are sampled with seeded random yields at every hook point",
         "events are ordered by a global log lock taken inside the hook; every hook is placed inside the critical section that protects the step it reports",
         "data races are observed by ThreadSanitizer on a build without event logging; a report enters the trace as a Fault event",
         "safe_queue::pop is only called when the queue is known to be non-empty (single consumer), as its API requires",
